@@ -23,6 +23,16 @@ def run(ctx):
                 if int(m.group(2)): ctx.broken.append('correspondence dist: the real dist_or_local_compile reacts differently from distDecide / the exit-status mapping on %s cases: %s' % (m.group(2), out[:500].replace('\n', ' ')))
             ctx.evaluations += s['cases'] + s.get('history_steps', 0); ctx.distinct_nontrivial += s['cases'] + s.get('history_steps', 0); ctx.cov['history_steps'] = s.get('history_steps', 0); ctx.samples += s['samples'][:2]; ctx.cov['fault_cases'] = s['cases']; ctx.cov['exhaustive'] = True
             monitor_failures(ctx, s['monitor_failures'], findings, 'h_dist monitor', rp)
+    # the client's toolchain map: real put_toolchain histories (sizes around the cache size, restarts) vs ClientTcM
+    if cargo_harness(ctx, ['h_clienttc']):
+        w = ctx.work; e = env_offline(); e['VERIF_SEED'] = str(ctx.seed * 5 + 2)
+        rc, out, dt = sh([harness_bin('h_clienttc'), 'gen', '150' if ctx.quick() else '3000', f'{w}/clienttc.trace', f'{w}/clienttc.json'], env=e, timeout=7200)
+        if rc != 0: ctx.broken.append('h_clienttc crashed: ' + out[-300:])
+        else:
+            run_modeld(ctx, 'clienttc', f'{w}/clienttc.trace', 'clienttc')
+            sc_ = json.load(open(f'{w}/clienttc.json')); ctx.evaluations += sc_['puts']; ctx.cov['client_toolchain_map'] = {k: v for k, v in sc_.items() if k != 'monitor_failures'}
+            monitor_failures(ctx, sc_['monitor_failures'], findings, 'h_clienttc monitor', lambda fl: ('monitor-' + fl['kind'], ['trace of harness/src/bin/h_clienttc.rs (real put_toolchain): new <cap> <sizes of the four toolchains> / put <compiler> | <answer> / restart', 'observed: ' + fl['detail'], 'replay: harness h_clienttc replay <this file>'], '\n'.join(fl['ops'])))
+            ctx.rules.append('h_clienttc: histories of put_toolchain over four compilers (two with generated sizes, one that fits, one that never fits) and restarts on the real ClientToolchains (through dist::http::Client), diffed line by line against ClientTcM.put; monitor: a toolchain larger than the cache is reported every time')
     # the argument vector that travels: real generate_compile_commands (both rewrite_includes_only settings) vs ArgsM.distRegen
     translate(ctx, ['args'])
     if cargo_harness(ctx, ['h_args']):
